@@ -12,6 +12,8 @@ import (
 	"sync/atomic"
 	"time"
 
+	"github.com/Dash-Industry-Forum/livesim2/cmd/livesim2/app"
+
 	"verifharness/srv"
 	"verifharness/tr"
 )
@@ -174,6 +176,7 @@ func runIngest(s *srv.S, rng *rand.Rand, thorough bool) map[string]any {
 		nSess, nCreators, nPollers, steps = 240, 6, 8, 3
 	}
 	bound := 20 * time.Second
+	forced := forceReportOverlap(s, recv.URL, bound)
 	var stop atomic.Bool
 	var bg sync.WaitGroup
 	nBg := nPollers + 2
@@ -260,7 +263,7 @@ func runIngest(s *srv.S, rng *rand.Rand, thorough bool) map[string]any {
 	time.Sleep(50 * time.Millisecond)
 	stop.Store(true)
 	bg.Wait()
-	res := map[string]any{}
+	res := map[string]any{"forced_overlaps": forced}
 	sum := func(t tally) {
 		for k, v := range t {
 			if cur, ok := res[k].(int); ok {
@@ -283,4 +286,68 @@ func runIngest(s *srv.S, rng *rand.Rand, thorough bool) map[string]any {
 	}
 	_ = rng
 	return res
+}
+
+// forceReportOverlap replays the NoConflict_report counterexample of spec/IngestMgrImpl.tla (process sess inside the
+// append to `report`, a Get client inside its read) with the scheduler gates of proposed_fixes/C07-hooks.diff: the
+// session goroutine is held right before the append, a GET handler right before the read, then both gates are
+// released by this goroutine - the two accesses are unordered for the race detector whatever the server's internal
+// synchronisation did before. Returns the number of overlaps forced: 0 when the repository under test has no such
+// gates (the armed points are never reached; the free-running phase below is then the only instrument).
+func forceReportOverlap(s *srv.S, recvURL string, bound time.Duration) int {
+	const gSess, gGet = "ingest:sess_report", "ingest:get_report"
+	reached := make(chan string, 16)
+	app.VerifGateReached = func(p string) { reached <- p }
+	defer func() { app.VerifGateReached = nil }()
+	waitFor := func(p string, d time.Duration) bool {
+		t := time.After(d)
+		for {
+			select {
+			case q := <-reached:
+				if q == p {
+					return true
+				}
+			case <-t:
+				return false
+			}
+		}
+	}
+	n := 0
+	for round := 0; round < 3; round++ {
+		app.VerifArmGate(gSess)
+		app.VerifArmGate(gGet)
+		setup := map[string]any{"destRoot": recvURL, "destName": "forced" + strconv.Itoa(round), "livesimURL": "/livesim2/testpic_2s/Manifest.mpd",
+			"testNowMS": 1_700_000_000_000 + round*4000}
+		code, body, ok := apiDo(s, "POST", "/api/cmaf-ingests", setup, bound)
+		var cr struct {
+			ID string `json:"id"`
+		}
+		_ = json.Unmarshal(body, &cr)
+		okSess := ok && code == 201 && cr.ID != "" && waitFor(gSess, 1500*time.Millisecond)
+		okGet := false
+		done := make(chan struct{})
+		if okSess {
+			go func() {
+				apiDo(s, "GET", "/api/cmaf-ingests/"+cr.ID, nil, bound)
+				close(done)
+			}()
+			okGet = waitFor(gGet, 1500*time.Millisecond)
+		}
+		app.VerifReleaseGate(gSess)
+		app.VerifReleaseGate(gGet)
+		if okSess {
+			<-done
+		}
+		if okSess && okGet {
+			n++
+		}
+		if cr.ID != "" {
+			time.Sleep(20 * time.Millisecond)
+			apiDo(s, "DELETE", "/api/cmaf-ingests/"+cr.ID, nil, bound)
+		}
+		if !okSess {
+			break // no gates in this repository
+		}
+	}
+	return n
 }
